@@ -145,7 +145,7 @@ def op_topath(c):
     """C05: path of a Sid in every configuration, asked in every spelling, and back"""
     import random
     pc = _pathconf()
-    s = render_sid(dict(c, uri=[], query=[]))
+    s = render_sid(dict(c, query=[]))
     sid = Sid(s)
     o = dict(self=snap(sid), cfgs=[])
     order = list(pc['cfgs'])
